@@ -147,12 +147,17 @@ impl Op {
             Op::ShrinkTo(_) => "shrink_to",
             Op::ExtendIter(..) => "extend_iter",
             Op::Alt(3, _) => "push_with",
+            Op::Alt(6, inner) => match **inner {
+                Op::Drain(..) => "drain_forget",
+                _ => "extract_if_forget",
+            },
             Op::Alt(_, inner) => inner.name(),
         }
     }
     /// is the operation replayed on the Lean model (correspondence), or checked by the oracles only?
     pub fn modelled(&self) -> bool {
-        true
+        // (an iterator that is LEAKED instead of dropped: oracles only)
+        !matches!(self, Op::Alt(6, _))
     }
     /// does the operation take the vector by value?
     pub fn consumes(&self) -> bool {
@@ -365,6 +370,38 @@ pub fn std_apply(v: &mut Vec<u64>, op: &Op, o: &[Oc]) -> Result<(String, usize),
         Op::ShrinkTo(n) => {
             v.shrink_to(*n);
             String::new()
+        }
+        Op::Alt(6, inner) => {
+            // the iterator is leaked (`mem::forget`): whatever `Vec` itself is left with
+            match &**inner {
+                Op::Drain(start, end, script, _) => {
+                    let (start, end) = std_norm(v, *start, *end)?;
+                    let mut ys = Vec::new();
+                    let mut d = v.drain(start..end);
+                    for c in script {
+                        let y = if *c == b'f' { d.next() } else { d.next_back() };
+                        ys.push(y.map_or("none".to_string(), |x| x.to_string()));
+                    }
+                    std::mem::forget(d);
+                    if ys.is_empty() { "-".to_string() } else { ys.join("/") }
+                }
+                Op::ExtractIf(calls) => {
+                    let mut out = Vec::new();
+                    let mut it = v.extract_if(.., |x| {
+                        std_log_args(*x, NOARG);
+                        next() != 0
+                    });
+                    for _ in 0..*calls {
+                        match it.next() {
+                            Some(x) => out.push(x),
+                            None => break,
+                        }
+                    }
+                    std::mem::forget(it);
+                    csv(&out)
+                }
+                other => unreachable!("no leaking route for {:?}", other),
+            }
         }
         Op::Alt(5, _) => {
             // the semantic route: the predicate is computed from the pair it is handed
@@ -711,6 +748,30 @@ macro_rules! impl_vecdyn {
                         s.dedup_by_key($T::key_cb);
                         String::new()
                     }
+                    Op::Alt(6, inner) => match &**inner {
+                        Op::Drain(start, end, script, _) => {
+                            let mut d = s.drain(form_range(*start, *end, s.len()));
+                            let t = pulls_text(&mut d, script);
+                            std::mem::forget(d);
+                            t
+                        }
+                        Op::ExtractIf(calls) => {
+                            let mut it = s.extract_if($T::pred);
+                            let mut ids = Vec::new();
+                            for _ in 0..*calls {
+                                match it.next() {
+                                    Some(e) => {
+                                        ids.push(e.ident());
+                                        e.stash();
+                                    }
+                                    None => break,
+                                }
+                            }
+                            std::mem::forget(it);
+                            csv(&ids)
+                        }
+                        other => unreachable!("no leaking route for {:?}", other),
+                    },
                     Op::ExtractIf(calls) => {
                         let mut it = s.extract_if($T::pred);
                         let mut ids = Vec::new();
